@@ -444,6 +444,15 @@ def time_method(ip, o, name, args, kw, ctx):
                 if op == "Sub":
                     d = simp(zi(o.secs) - zi(other.secs))
                     return SymTimedelta(simp(-d) if swapped else d)
+                if op in ("Mod", "FloorDiv"):
+                    num, den = (other, o) if swapped else (o, other)
+                    c = den.secs if isinstance(den.secs, int) else ctx.concrete_int(zi(den.secs))
+                    if c is None or c <= 0:
+                        raise _uns("timedelta % or // by a symbolic or non-positive timedelta")
+                    # floor semantics of timedelta arithmetic: 0 <= remainder < divisor for a positive divisor (z3 div/mod agree)
+                    if op == "Mod":
+                        return SymTimedelta(simp(zi(num.secs) % c))
+                    return simp(zi(num.secs) / c)
             return NotImplemented
         if name == "__cmp__":
             op, other = args
